@@ -51,6 +51,9 @@ __CPROVER_ensures(__CPROVER_return_value.status == CBOR_DECODER_FINISHED ==>
                    __CPROVER_return_value.required == 0 &&
                    g_ev_slot == (int)spec_head_event(source[0]) &&
                    __CPROVER_return_value.read <= source_size &&
+                   source_size >= spec_head_len(source[0]) &&
+                   /* no wrap-around: the payload really fits behind the head */
+                   (!spec_head_has_payload(source[0]) || spec_head_arg(source) <= source_size - spec_head_len(source[0])) &&
                    __CPROVER_return_value.read ==
                        spec_head_len(source[0]) + (spec_head_has_payload(source[0]) ? spec_head_arg(source) : 0)))
 __CPROVER_ensures((__CPROVER_return_value.status == CBOR_DECODER_FINISHED &&
@@ -61,7 +64,7 @@ __CPROVER_ensures((__CPROVER_return_value.status == CBOR_DECODER_FINISHED &&
 __CPROVER_ensures((__CPROVER_return_value.status == CBOR_DECODER_FINISHED &&
                    (g_ev_slot == EV_BSTR || g_ev_slot == EV_TSTR)) ==>
                   (g_ev_ptr == source + spec_head_len(source[0]) &&
-                   spec_head_len(source[0]) + g_ev_arg <= source_size))
+                   g_ev_arg <= source_size - spec_head_len(source[0])))
 __CPROVER_ensures((__CPROVER_return_value.status == CBOR_DECODER_FINISHED && g_ev_slot == EV_BOOL) ==>
                   g_ev_bool == (source[0] == 0xF5))
 /* floats: exact bits (NaN -> NaN for halves, which are widened to single) */
